@@ -63,11 +63,14 @@ Proof.
     split; [exact NDv|]. split; [exact NDe|exact Himm].
   - apply andb_true_iff in H as [ND B]. split; [apply nodupb_NoDup; exact ND|].
     rewrite forallb_forall in B. intros r Hr. apply Nat.ltb_lt, B. exact Hr.
-  - unfold thread_ok in H. destruct api.
+  - unfold thread_ok in H. destruct api as [| | | |par|par w|par w].
     + change fact_world_send_needs_components_send with true in H. exact H.
     + change fact_world_sync_needs_components_sync with true in H. exact H.
     + change (fact_iter_send_needs_views_send && fact_entries_send_needs_views_send && fact_parview_ref_needs_sync && fact_parviews_need_send) with true in H. exact H.
     + change (fact_iter_send_needs_views_send && fact_entries_send_needs_views_send && fact_parview_mut_needs_send && fact_parviews_need_send) with true in H. exact H.
+    + destruct par; [change fact_task_parsystem_self_send with true in H|change fact_task_system_self_send with true in H]; exact H.
+    + assert (B : task_bound par w = true) by (destruct par, w; reflexivity). rewrite B in H. exact H.
+    + assert (B : task_bound par w = true) by (destruct par, w; reflexivity). rewrite B in H. exact H.
   - destruct api; cbn [borrows_receiver] in H.
     + change fact_world_entry_query_borrows_receiver with true in H. discriminate.
     + exfalso. apply HK. exact I.
